@@ -1,0 +1,30 @@
+//go:build verif
+
+package keeper
+
+// Contracts for the deductive checker in /verif (comment-only; compiled only with -tags verif).
+// Property C02 "EVM execution never mints or burns the native coin" - keeper side (write-back of the cached balances).
+
+/*@
+alias EvmParams github.com/haqq-network/haqq/x/evm/types.Params
+// the stored x/evm module parameters (abstract view of the params store entry)
+world evm_params EvmParams
+
+// leaf store getter: assumed
+func (Keeper).GetParams
+    trusted
+    ensures result == evm_params
+
+// C02 core lemma: writing the cached balance of one account back to x/bank moves the total supply by exactly
+// (amount - previous bank balance) of the EVM denom, sets that account's balance to amount, and touches nothing else.
+func (*Keeper).SetBalance
+    let a = acc_of_bytes(addr_bytes(addr))
+    let d = evm_params.EvmDenom
+    let was = old(bank_bal)[a][d]
+    requires nonnil: k != nil && amount != nil && k.bankKeeper != nil
+    modifies bank_bal, bank_supply
+    ensures balance: result == nil ==> bank_bal[a][d] == *amount
+    ensures supply: result == nil ==> bank_supply == cadd(old(bank_supply), cone(d, *amount - was))
+    ensures account: result == nil ==> bank_bal == bal_put(old(bank_bal), a, cset(old(bank_bal)[a], d, *amount))
+    ensures unchanged: result == nil && *amount == was ==> bank_bal == old(bank_bal) && bank_supply == old(bank_supply)
+@*/
